@@ -1,7 +1,6 @@
 package value
 
 import (
-	"fmt"
 	"math"
 	"strings"
 
@@ -30,12 +29,7 @@ func NewEmptyArray() *Array {
 }
 
 func (ar *Array) String() string {
-	var strItem = []string{}
-	for _, v := range ar.value {
-		strItem = append(strItem, v.String())
-	}
-
-	return fmt.Sprintf("[%s]", strings.Join(strItem, "，"))
+	return stringifyCollection(ar)
 }
 
 func (ar *Array) Length() int {
